@@ -408,6 +408,32 @@ func c09Faults() []c09Fault {
 			}
 			b.level(lv).Set("template", other)
 		}},
+		// the same struct of the same interface asked for twice, with requirements that cannot both hold
+		{Class: "file-conflict", Variant: "same-struct-twice-template-differs", Levels: []string{""}, Apply: func(b *c09Base, _ string, _ *simrt.Plan) {
+			other := "matryer"
+			if b.tmpl == "matryer" {
+				other = "testify"
+			}
+			b.level("configs").Set("structname", "Mock"+b.i1+"A").Set("template", other)
+		}},
+		{Class: "file-conflict", Variant: "same-struct-twice-pkgname-differs", Levels: []string{""}, Apply: func(b *c09Base, _ string, _ *simrt.Plan) {
+			b.level("configs").Set("structname", "Mock"+b.i1+"A").Set("pkgname", "othermocks")
+		}},
+		// a go.mod without a module directive (syntactically valid; the usual way to fence a directory
+		// off from the surrounding module) is the nearest one above the output file: what the right
+		// status is the statement does not say — mockery must exit, and not by a panic
+		{Class: "odd-gomod", Variant: "module-less-go-mod-above-the-output:go-line-only", Unjudged: true, Levels: []string{""}, Apply: func(b *c09Base, _ string, _ *simrt.Plan) {
+			b.proj.Aux[filepath.Dir(c09OutFile(b.tpkg().Dir))+"/go.mod"] = "go 1.23\n"
+		}},
+		{Class: "odd-gomod", Variant: "module-less-go-mod-above-the-output:empty", Unjudged: true, Levels: []string{""}, Apply: func(b *c09Base, _ string, _ *simrt.Plan) {
+			b.proj.Aux[filepath.Dir(c09OutFile(b.tpkg().Dir))+"/go.mod"] = ""
+		}},
+		{Class: "odd-gomod", Variant: "module-less-go-mod-above-the-output:comment-only", Unjudged: true, Levels: []string{""}, Apply: func(b *c09Base, _ string, _ *simrt.Plan) {
+			b.proj.Aux["mocks/go.mod"] = "// fenced off\n\n// nothing here\n"
+		}},
+		{Class: "odd-gomod", Variant: "go-mod-above-the-output-with-toolchain-and-replace-only", Unjudged: true, Levels: []string{""}, Apply: func(b *c09Base, _ string, _ *simrt.Plan) {
+			b.proj.Aux["mocks/go.mod"] = "go 1.23\n\ntoolchain go1.23.7\n\nreplace example.com/x => ../x\n"
+		}},
 		{Class: "retrieval", Variant: "file-missing", Levels: []string{"root", "package"}, Apply: func(b *c09Base, lv string, _ *simrt.Plan) {
 			b.level(lv).Set("template", "file://"+world.RootPlaceholder+"/templates/absent.templ")
 		}},
